@@ -100,6 +100,8 @@ def main(tier):
                 kind, i, bad, full[:1200]),
                 {"kind": "locality", "doc": m["doc"], "block": i, "keys": keys, "with": full, "without": less,
                  "observed_with": obs[fid], "observed_without": obs[wo], "signature": sig}, sig)
+    import fixrel
+    fixrel.c20(chk, tier)
     if meta:
         x = next(iter(meta.values()))
         chk.sample({"doc": x[1]["doc"], "independent_block": x[2], "its_catalog_keys": x[3]})
@@ -112,6 +114,9 @@ def main(tier):
 
 def replay(path):
     rp = json.load(open(path))["replay"]
+    if rp.get("kind") in ("fxpair", "fxban"):
+        import fixrel
+        return fixrel.replay("C20", rp)
     chk = Check("C20", "quick")
     obs = harness("run", [rel.case("a", rp["without"]), rel.case("b", rp["with"])])
     chk.evaluations = 1
